@@ -12,6 +12,7 @@ property oracle: python brute force (bitmask DP) directly on the implementation'
 This module also holds the helpers shared with c17.py (stream parsing, SortVoting oracles).
 """
 import json
+import math
 import os
 import struct
 from collections import Counter
@@ -365,7 +366,7 @@ def compare_sort_model(c, val):
     return None, info
 
 
-def e2e_oracle(d):
+def e2e_assignment_oracle(d):
     """one Sort::predict call: the continuations must be a maximum-weight one-to-one matching over the gated pairs"""
     if d["anomalies"] != "-":
         return ("e2e-anomaly", "tracker output anomaly: %s" % d["anomalies"])
@@ -404,6 +405,150 @@ def e2e_oracle(d):
         return ("not-maximum", "continuations have value %d, the best gated matching has %d (greedy %d)"
                 % (value, best, greedy_value(gated, thrz) + thrz * (nd - len(F))))
     return None
+
+
+# ---- the gate, read from the property text and computed HERE (nothing of the crate's metric code is used) -----------------
+CHI2_95_DOF5 = 11.0705          # 95% quantile of the chi-square distribution with 5 degrees of freedom (xc, yc, angle, aspect, height)
+GATE_MARGIN = 1e-4              # relative guard band; pairs inside it are counted and not judged
+GATE_STATS = Counter()
+
+
+def _rect(xc, yc, angle, aspect, height):
+    hw, hh = aspect * height / 2.0, height / 2.0
+    c, s_ = math.cos(angle), math.sin(angle)
+    return [(xc + dx * c - dy * s_, yc + dx * s_ + dy * c) for dx, dy in ((-hw, -hh), (hw, -hh), (hw, hh), (-hw, hh))]
+
+
+def _area(poly):
+    return abs(sum(poly[i][0] * poly[(i + 1) % len(poly)][1] - poly[(i + 1) % len(poly)][0] * poly[i][1] for i in range(len(poly)))) / 2.0
+
+
+def _clip(subject, clipper):
+    """Sutherland-Hodgman, float64, both polygons convex and counter-clockwise"""
+    out = subject
+    for i in range(len(clipper)):
+        a, b = clipper[i], clipper[(i + 1) % len(clipper)]
+        inp, out = out, []
+        if not inp:
+            break
+
+        def side(p):
+            return (b[0] - a[0]) * (p[1] - a[1]) - (b[1] - a[1]) * (p[0] - a[0])
+        for j in range(len(inp)):
+            p, q = inp[j], inp[(j + 1) % len(inp)]
+            sp, sq = side(p), side(q)
+            if sp >= 0:
+                out.append(p)
+            if (sp >= 0) != (sq >= 0):
+                t = sp / (sp - sq)
+                out.append((p[0] + t * (q[0] - p[0]), p[1] + t * (q[1] - p[1])))
+    return out
+
+
+def true_iou(b1, b2):
+    """IoU of two rotated rectangles given as (xc, yc, angle, aspect, height)"""
+    p1, p2 = _rect(*b1), _rect(*b2)
+    inter = _clip(p1, p2)
+    ia = _area(inter) if len(inter) >= 3 else 0.0
+    a1, a2 = b1[3] * b1[4] * b1[4], b2[3] * b2[4] * b2[4]
+    return ia / (a1 + a2 - ia) if a1 + a2 - ia > 0 else 0.0
+
+
+def _radius(b):
+    return math.hypot(b[3] * b[4] / 2.0, b[4] / 2.0)
+
+
+def parse_hist(h):
+    """e2ehist line -> dict(mode, thr, minconf, calls=[[(xc, yc, 0, aspect, height, conf)]]) from the RAW detections"""
+    m = kv(h)
+    f = vlib.f32_bits_to_float
+    calls = []
+    for c in m["calls"].split("|"):
+        dets = []
+        if c != "-":
+            for b in c.split(";"):
+                l, t, w, hh, conf = [f(int(x)) for x in b.split("/")]
+                dets.append((l + w / 2.0, t + hh / 2.0, 0.0, w / hh, hh, conf))
+        calls.append(dets)
+    return {"mode": m["mode"], "thr": f(int(m["thr"])), "minconf": f(int(m["minconf"])), "calls": calls}
+
+
+def e2e_gate_oracle(d, h):
+    """continued => the pair passes the gate of the property text; a detection left alone although a free track passes the
+    gate with room to spare => not a maximum (leaving it unmatched only counts the threshold)."""
+    H = parse_hist(h)
+    ci = int(d["call"])
+    if ci < 0 or ci >= len(H["calls"]):
+        return None
+    dets = H["calls"][ci]
+    f = vlib.f32_bits_to_float
+    tb = {}
+    if d.get("tb", "-") != "-":
+        for e in d["tb"].split(";"):
+            tid, _, g = e.partition(":")
+            xc, yc, ang, asp, hh = g.split("/")
+            tb[int(tid)] = (f(int(xc)), f(int(yc)), 0.0 if ang == "-" else f(int(ang)), f(int(asp)), f(int(hh)))
+    d2 = {}
+    if d.get("d2", "-") != "-":
+        for e in d["d2"].split(","):
+            a, b, v = e.split(":")
+            d2[(int(a), int(b))] = f(int(v))
+    chosen = [] if d["chosen"] == "-" else [e.split(":") for e in d["chosen"].split(",")]
+    if len(chosen) != len(dets):
+        return None
+    iou_mode = H["mode"] == "iou"
+    thr = H["thr"]
+
+    def verdict(di, t):
+        """+1 passes with room, -1 fails with room, 0 inside the guard band; plus a description"""
+        det = dets[di]
+        trk = tb[t]
+        if iou_mode:
+            w = true_iou(det[:5], trk) * max(det[5], H["minconf"])
+            txt = "true IoU %.6f x confidence %.3f = %.6f, threshold %.6f" % (true_iou(det[:5], trk), max(det[5], H["minconf"]), w, thr)
+            return (1 if w >= thr * (1 + GATE_MARGIN) else -1 if w < thr * (1 - GATE_MARGIN) else 0), txt
+        reach = _radius(det) + _radius(trk)
+        dist2 = (det[0] - trk[0]) ** 2 + (det[1] - trk[1]) ** 2
+        far = 1 if dist2 > reach * reach * (1 + GATE_MARGIN) else -1 if dist2 <= reach * reach * (1 - GATE_MARGIN) else 0
+        q = d2.get((di, t))
+        if q is None or q != q:
+            return 0, "no distance"
+        chi = 1 if q <= CHI2_95_DOF5 * (1 - GATE_MARGIN) else -1 if q > CHI2_95_DOF5 * (1 + GATE_MARGIN) else 0
+        txt = "squared Mahalanobis distance %.4f (95%% chi-square gate, 5 dof: %.4f), centre distance %.3f, circle reach %.3f" % (q, CHI2_95_DOF5, math.sqrt(dist2), reach)
+        if chi == -1 or far == 1:
+            return -1, txt
+        if chi == 1 and far == -1:
+            return 1, txt
+        return 0, txt
+    used = set(int(ts) for _, ts in chosen if ts != "-")
+    for ds, ts in chosen:
+        di = int(ds)
+        if ts != "-":
+            t = int(ts)
+            if t not in tb:
+                continue
+            v, txt = verdict(di, t)
+            GATE_STATS["continued_judged" if v else "near_gate_skipped"] += 1
+            if v == -1:
+                return ("gate:continued-outside", "detection %d continues track %d although the pair does not pass the gate: %s" % (di, t, txt))
+        else:
+            for t in tb:
+                if t in used:
+                    continue
+                v, txt = verdict(di, t)
+                if v == 0:
+                    GATE_STATS["near_gate_skipped"] += 1
+                if v == 1:
+                    return ("gate:gated-pair-ignored", "detection %d starts a new track although the free track %d passes the gate with room to spare "
+                            "(so the chosen matching is not a maximum): %s" % (di, t, txt))
+    return None
+
+
+def e2e_oracle(d, h=None):
+    r = e2e_assignment_oracle(d)
+    if r is None and h is not None:
+        r = e2e_gate_oracle(d, h)
+    return r
 
 
 def e2e_nontrivial(d):
@@ -516,7 +661,7 @@ def run(chk):
             if int(d["shadow_bad"]) > 0:
                 shadow_bad += 1
                 continue
-            r = e2e_oracle(d)
+            r = e2e_oracle(d, cur_hist)
             if d.get("farok", "-") != "-":
                 e2e_far += 1
             if r is not None:
@@ -535,6 +680,9 @@ def run(chk):
         "predict_calls_checked": e2e_calls,
         "predict_calls_greedy_differs_from_optimal": e2e_nt,
         "predict_calls_with_out_of_reach_pair_admitted_by_chi_square_alone": e2e_far,
+        "independent_gate_oracle": {"continued_pairs_judged": GATE_STATS["continued_judged"],
+                                    "pairs_inside_guard_band_not_judged": GATE_STATS["near_gate_skipped"],
+                                    "relative_margin": GATE_MARGIN, "chi2_95_dof5": CHI2_95_DOF5},
         "distinct_nontrivial": len(nontriv) + e2e_nt + e2e_far,
         "rule": "SortVoting::winners on streams from integer weight matrices: exhaustive family (<=3 detections x <=3 tracks, every cell from "
                 "{absent, 0, thr-1, thr, thr+1, 2thr, 2thr+1} resp. the 5-value subset; all of them checked by the in-harness brute-force oracle, "
@@ -575,16 +723,16 @@ def run(chk):
             if 0 <= ci < len(calls) - 1:
                 h2 = " ".join(t if not t.startswith("calls=") else "calls=" + "|".join(calls[:ci + 1]) for t in toks)
                 out_lines = [kv(l) for l in run_replay_lines([h2]) if l.startswith("e2e ")]
-                bad = [x for x in out_lines if int(x["shadow_bad"]) == 0 and e2e_oracle(x) is not None]
+                bad = [x for x in out_lines if int(x["shadow_bad"]) == 0 and e2e_oracle(x, h2) is not None]
                 if bad:
                     h, d = h2, bad[0]
-                    key, text = e2e_oracle(d)
+                    key, text = e2e_oracle(d, h2)
             # then drop whole calls / single detections while some call still fails with the same key (bounded effort)
             def fails_hist(hh):
                 ls = [kv(l) for l in run_replay_lines([hh]) if l.startswith("e2e ")]
                 for x in ls:
                     if int(x["shadow_bad"]) == 0:
-                        rr = e2e_oracle(x)
+                        rr = e2e_oracle(x, hh)
                         if rr is not None and rr[0] == key:
                             return x, rr
                 return None
@@ -643,7 +791,7 @@ def replay(chk, path):
             bad = bad or r is not None or c["malformed_answer"]
         elif l.startswith("e2e "):
             d = kv(l)
-            r = e2e_oracle(d) if int(d["shadow_bad"]) == 0 else None
+            r = e2e_oracle(d, line if line.startswith("e2ehist ") else None) if int(d["shadow_bad"]) == 0 else None
             if r is not None:
                 print("oracle:", r, "at", l[:200])
                 bad = True
